@@ -95,6 +95,15 @@ fn check_build(input: &ARecord, case: &mut Case) -> Result<(), Fail> {
     let p = APacket { id: 1, flags: 0x8000, answers: vec![rec.clone()], ..Default::default() };
     let refwire = encode_message(&p, &EncOpts::plain());
     ensure!(out == refwire, "c10:build-message", "message {} expected {}", hex(&out), hex(&refwire));
+    // the same encoding reaches a writer that accepts only a few bytes per call (plain and compressing entry points)
+    let chunk = 1 + (rec.ttl as usize % 19);
+    let mut w = super::c04::ChunkedWriter { inner: std::io::Cursor::new(Vec::new()), chunk };
+    lib("write_to", || pk.write_to(&mut w))?.map_err(|e| Fail::new("c10:build-failed", format!("{:?}", e)))?;
+    ensure!(w.inner.get_ref()[..] == refwire[..], format!("c10:build-bytes-short-writes:{}", mnemonic(code)), "{}: a writer accepting {} bytes per call receives {} expected {}", mnemonic(code), chunk, hex(w.inner.get_ref()), hex(&refwire));
+    let mut w = super::c04::ChunkedWriter { inner: std::io::Cursor::new(Vec::new()), chunk };
+    lib("write_compressed_to", || pk.write_compressed_to(&mut w))?.map_err(|e| Fail::new("c10:build-failed", format!("{:?}", e)))?;
+    let wc = walk(w.inner.get_ref()).map_err(|e| Fail::new(format!("c10:build-framing:{}", mnemonic(code)), format!("compressed output through a short-write writer does not walk: {:?}", e)))?;
+    ensure!(wc.records.len() == 1 && wc.end == w.inner.get_ref().len(), format!("c10:build-framing:{}", mnemonic(code)), "compressed output through a short-write writer is mis-framed");
     Ok(())
 }
 
@@ -327,11 +336,52 @@ pub fn def() -> CheckDef {
         sections: vec![
             Box::new(PropSection { name: "parse", rule: "reference encoding -> parse -> values", strategy: parse_strategy, cases: (200_000, 3_000_000), check: check_parse }),
             Box::new(PropSection { name: "build", rule: "values -> build -> bytes == reference", strategy: build_strategy, cases: (200_000, 3_000_000), check: check_build }),
+            Box::new(PropSection { name: "txt-from-text", rule: "TXT::try_from(&str) around multiples of 254 bytes", strategy: txt_text_strategy, cases: (20_000, 200_000), check: check_txt_text }),
             Box::new(PropSection { name: "opt", rule: "OPT pseudo-record both directions", strategy: opt_strategy, cases: (50_000, 600_000), check: check_opt }),
             Box::new(PropSection { name: "rules", rule: "structural rules and byte mutations", strategy: rule_strategy, cases: (300_000, 3_000_000), check: check_rule }),
             Box::new(EnumSection { name: "samples", rule: "externally produced encodings", enumerate: enum_samples, check: check_sample, exhaustive: true }),
         ],
     }
+}
+
+// ---- TXT built from text: RFC 1035 3.3.14 says one or more character-strings; the text constructor must emit them exactly
+
+fn txt_text_strategy(_t: Tier) -> BoxedStrategy<(u16, u8)> {
+    (prop_oneof![4 => (0u16..7, -2i16..=2).prop_map(|(k, d)| ((k * 254) as i32 + d as i32).max(0) as u16), 1 => 0u16..2000], any::<u8>()).boxed()
+}
+
+fn check_txt_text(input: &(u16, u8), case: &mut Case) -> Result<(), Fail> {
+    use simple_dns::rdata::{RData, TXT};
+    use std::convert::TryFrom;
+    let (len, c) = *input;
+    let text: String = std::iter::repeat((b'a' + c % 26) as char).take(len as usize).collect();
+    case.nontrivial = len >= 254;
+    case.class("type:TXT");
+    let txt = lib("TXT::try_from(&str)", || TXT::try_from(text.as_str()))?.map_err(|e| Fail::new("c10:build-failed", format!("TXT::try_from(&str of {} bytes): {:?}", len, e)))?;
+    let tr = trailing();
+    let mut pk = simple_dns::Packet::new_reply(1);
+    pk.answers.push(simple_dns::ResourceRecord::new(simple_dns::Name::new_unchecked("t.example"), simple_dns::CLASS::IN, 9, RData::TXT(txt)));
+    pk.answers.push(build_record(&tr).map_err(|e| Fail::new("harness:build", e))?);
+    // the reference: character-strings of the pieces the constructor made (what matters is that the bytes on the
+    // wire are exactly <len><bytes> per piece, their concatenation is the text, and RDLENGTH counts them all)
+    for compressed in [false, true] {
+        let out = if compressed { lib("build_bytes_vec_compressed", || pk.build_bytes_vec_compressed())? } else { lib("build_bytes_vec", || pk.build_bytes_vec())? };
+        let out = out.map_err(|e| Fail::new("c10:build-failed", format!("{:?}", e)))?;
+        let w = walk(&out).map_err(|e| Fail::new("c10:build-framing:TXT", format!("text of {} bytes (compressed={}): output does not walk: {:?}", len, compressed, e)))?;
+        ensure!(w.records.len() == 2 && w.end == out.len(), "c10:build-framing:TXT", "text of {} bytes (compressed={}): mis-framed", len, compressed);
+        let r = &w.records[0];
+        let (rec, fill) = decode_record(&out, r).map_err(|e| Fail::new("c10:build-framing:TXT", format!("text of {} bytes: {:?}", len, e)))?;
+        ensure!(fill == Fill::Exact, "c10:build-framing:TXT", "text of {} bytes: RDLENGTH {} does not match the character-strings written", len, r.rdlen);
+        if let ARData::Typed { fields, .. } = &rec.rdata {
+            if let Val::Strs(v) = &fields[0] {
+                let joined: Vec<u8> = v.iter().flat_map(|b| b.0.clone()).collect();
+                ensure!(joined == text.as_bytes() || (len == 0 && joined.is_empty()), "c10:build-bytes:TXT", "text of {} bytes: the character-strings concatenate to {} bytes", len, joined.len());
+            }
+        }
+        let (t2, _) = decode_record(&out, &w.records[1]).map_err(|e| Fail::new("c10:build-framing:TXT", format!("{:?}", e)))?;
+        ensure!(t2 == trailing(), "c10:parse-trailing", "the record after the TXT record is damaged");
+    }
+    Ok(())
 }
 
 // ---- OPT: carried by the packet's EDNS data, laid out per RFC 6891
